@@ -188,13 +188,92 @@ def inline_aliases(body, params, keep=()):
     return body
 
 
+def _helper_body(h):
+    return [x for x in h.body if not (isinstance(x, ast.Expr) and isinstance(x.value, ast.Constant))]
+
+
+def _dereturn(stmts):
+    """Rewrite a procedure body (no `return <value>`) so that it contains no
+    bare `return`: `if c: ...; return` + rest  ==>  `if c: ... else: rest`.
+    Returns None when that is not possible (return inside a loop / try)."""
+    out = []
+    for i, st in enumerate(stmts):
+        if isinstance(st, ast.Return):
+            return out  # anything after is dead
+        if isinstance(st, ast.If) and any(isinstance(x, ast.Return) for x in walk_own([st])):
+            b = _dereturn(st.body)
+            o = _dereturn(st.orelse)
+            rest = _dereturn(stmts[i + 1:])
+            if b is None or o is None or rest is None:
+                return None
+            body_exits = always_exits(st.body) and isinstance(_last_simple(st.body), ast.Return)
+            else_exits = bool(st.orelse) and always_exits(st.orelse) and isinstance(_last_simple(st.orelse), ast.Return)
+            if not body_exits and not else_exits:
+                return None  # a return somewhere deeper that does not end the branch
+            new = copy.copy(st)
+            new.body = (b if body_exits else b + copy.deepcopy(rest)) or [ast.Pass()]
+            new.orelse = (o if else_exits else o + copy.deepcopy(rest))
+            out.append(new)
+            return out
+        if any(isinstance(x, ast.Return) for x in walk_own([st])):
+            return None
+        out.append(st)
+    return out
+
+
+def _last_simple(stmts):
+    st = stmts[-1] if stmts else None
+    while isinstance(st, ast.If) and st.orelse:
+        st = st.orelse[-1]
+    return st
+
+
+_inline_counter = [0]
+
+
+def _hoistable_calls(st):
+    """Call nodes in the header expressions of a statement (evaluated exactly
+    once when the statement runs): not inside lambdas / comprehensions /
+    conditional sub-expressions."""
+    if isinstance(st, (ast.Assign, ast.AnnAssign, ast.AugAssign, ast.Expr, ast.Return)):
+        roots = [st.value] if st.value is not None else []
+    elif isinstance(st, ast.If):
+        roots = [st.test]
+    elif isinstance(st, ast.For):
+        roots = [st.iter]
+    else:
+        roots = []
+    out = []
+
+    def rec(e, top):
+        if isinstance(e, (ast.Lambda, ast.ListComp, ast.SetComp, ast.DictComp, ast.GeneratorExp)):
+            return
+        if isinstance(e, ast.IfExp):
+            rec(e.test, False)
+            return
+        if isinstance(e, ast.BoolOp):
+            rec(e.values[0], False)
+            return
+        if isinstance(e, ast.Call):
+            out.append(e)
+        for c in ast.iter_child_nodes(e):
+            rec(c, False)
+    for r in roots:
+        rec(r, True)
+    return out
+
+
 def inline_procedures(body, func, prog, depth=0):
-    """Inline calls to private same-module helpers where that is exact:
-    * expression statement `helper(args)` whose body has no `return <value>`;
-    * `return helper(args)` / `x = helper(args)` with a single-return helper
-      (handled separately by paths.inline_call).
+    """Inline calls to private same-module helpers / private methods where
+    that is exact:
+    * expression statement `helper(args)` whose body returns no value
+      (bare early returns are rewritten into if/else);
+    * `return helper(args)` with a multi-statement helper that always exits;
+    * a statement whose header expression calls a helper of the shape
+      `stmts...; return E` (one return, last): the statements are hoisted in
+      front (locals renamed) and the call replaced by E.
     Parameters are substituted by the argument expressions."""
-    if depth > 2:
+    if depth > 3:
         return body
     out = []
     for st in body:
@@ -202,65 +281,75 @@ def inline_procedures(body, func, prog, depth=0):
         if isinstance(st, ast.Return) and isinstance(st.value, ast.Call):
             h, mapping = _private_callee(st.value, func, prog)
             if h is not None and h is not func:
-                hb = [x for x in h.body if not (isinstance(x, ast.Expr) and isinstance(x.value, ast.Constant))]
+                hb = _helper_body(h)
                 multi = len(hb) > 1 and not any(isinstance(x, (ast.Yield, ast.YieldFrom)) for x in walk_own(hb))
                 if multi and always_exits(hb):
+                    _inline_counter[0] += 1
                     new = _subst_body(hb, mapping, suffix=f"__{h.name}")
                     out.extend(inline_procedures(new, func, prog, depth + 1))
                     done = True
         if done:
             continue
-        if isinstance(st, ast.Expr) and isinstance(st.value, ast.Call) and isinstance(st.value.func, ast.Name):
-            r = prog.resolve_in(func, st.value.func.id)
-            if r and r[0] == "func" and r[1].module is func.module and not r[1].decorators and r[1] is not func:
-                h = r[1]
-                hb = [x for x in h.body if not (isinstance(x, ast.Expr) and isinstance(x.value, ast.Constant))]
+        if isinstance(st, ast.Expr) and isinstance(st.value, ast.Call):
+            h, mapping = _private_callee(st.value, func, prog, allow_public_local=True)
+            if h is not None and h is not func:
+                hb = _helper_body(h)
                 returns_value = any(isinstance(x, ast.Return) and x.value is not None for x in walk_own(hb))
-                has_return = any(isinstance(x, ast.Return) for x in walk_own(hb))
-                call = st.value
-                simple_args = not any(isinstance(a, ast.Starred) for a in call.args) and all(k.arg for k in call.keywords)
-                if not returns_value and not has_return and simple_args and len(call.args) <= len(h.params):
-                    mapping = {}
-                    for p, a in zip(h.params, call.args):
-                        mapping[p.name] = a
-                    for k in call.keywords:
-                        mapping[k.arg] = k.value
-                    ok = True
-                    for p in h.params:
-                        if p.name not in mapping:
-                            if p.default is None:
-                                ok = False
-                            else:
-                                mapping[p.name] = p.default
-                    if ok:
-                        class Sub(ast.NodeTransformer):
-                            def visit_Name(self, node):
-                                if isinstance(node.ctx, ast.Load) and node.id in mapping:
-                                    return copy.deepcopy(mapping[node.id])
-                                return node
-                        new = [Sub().visit(copy.deepcopy(x)) for x in hb]
-                        for x in new:
-                            ast.fix_missing_locations(x)
+                gen = any(isinstance(x, (ast.Yield, ast.YieldFrom)) for x in walk_own(hb))
+                if not returns_value and not gen:
+                    hb2 = _dereturn(copy.deepcopy(hb))
+                    if hb2 is not None:
+                        new = _subst_body(hb2, mapping, suffix=f"__{h.name}")
                         out.extend(inline_procedures(new, func, prog, depth + 1))
                         done = True
+        if not done and not isinstance(st, (ast.FunctionDef, ast.ClassDef)):
+            for call in _hoistable_calls(st):
+                h, mapping = _private_callee(call, func, prog)
+                if h is None or h is func:
+                    continue
+                hb = _helper_body(h)
+                if len(hb) < 2 or not isinstance(hb[-1], ast.Return) or hb[-1].value is None:
+                    continue
+                if any(isinstance(x, (ast.Return, ast.Yield, ast.YieldFrom)) for x in walk_own(hb[:-1])):
+                    continue
+                # arguments must be pure references (evaluated earlier than in the original)
+                _inline_counter[0] += 1
+                new = _subst_body(hb[:-1] + [ast.Expr(value=hb[-1].value)], mapping, suffix=f"__{h.name}")
+                ret = new[-1].value
+                pre = inline_procedures(new[:-1], func, prog, depth + 1)
+                out.extend(pre)
+
+                class R(ast.NodeTransformer):
+                    def visit_Call(self, node):
+                        if node is call:
+                            return ret
+                        return self.generic_visit(node)
+                st = R().visit(st)
+                ast.fix_missing_locations(st)
         if not done:
             for fld in ("body", "orelse", "finalbody"):
                 sub = getattr(st, fld, None)
                 if isinstance(sub, list) and sub and isinstance(sub[0], ast.stmt) and not isinstance(st, (ast.FunctionDef, ast.ClassDef)):
                     setattr(st, fld, inline_procedures(sub, func, prog, depth))
+            if isinstance(st, ast.Try):
+                for hd in st.handlers:
+                    hd.body = inline_procedures(hd.body, func, prog, depth)
             out.append(st)
     return out
 
 
-def _private_callee(call, func, prog):
+def _private_callee(call, func, prog, allow_public_local=False):
     """(helper Func, param->arg mapping) for a call to a private helper of the
     same module / class (name starts with '_', not a dunder), else (None, None)."""
     target = None
     skip = 0
-    if isinstance(call.func, ast.Name) and call.func.id.startswith("_"):
+    if isinstance(call.func, ast.Name) and (call.func.id.startswith("_") or allow_public_local
+                                            or call.func.id in getattr(func, "nested", {})):
         r = prog.resolve_in(func, call.func.id)
         if r and r[0] == "func" and r[1].module is func.module and not r[1].decorators:
             target = r[1]
+        elif call.func.id in getattr(func, "nested", {}) and not func.nested[call.func.id].decorators:
+            target = func.nested[call.func.id]
     elif isinstance(call.func, ast.Attribute) and isinstance(call.func.value, ast.Name) and func.cls is not None \
             and call.func.attr.startswith("_") and not call.func.attr.startswith("__"):
         recv = call.func.value.id
@@ -293,6 +382,17 @@ def _subst_body(stmts, mapping, suffix=""):
     expressions and the helper's own locals renamed (suffix)."""
     stmts = copy.deepcopy(stmts)
     local_names = set()
+    mapping = dict(mapping)
+    pre = []
+    for n in walk_own(stmts):
+        if isinstance(n, ast.Name) and isinstance(n.ctx, (ast.Store, ast.Del)) and n.id in mapping:
+            # the helper rebinds one of its parameters: keep it as a (renamed) local initialised from the argument
+            arg = mapping.pop(n.id)
+            new_name = n.id + (suffix or "__arg")
+            pre.append(ast.Assign(targets=[ast.Name(id=new_name, ctx=ast.Store())], value=copy.deepcopy(arg), lineno=0, col_offset=0))
+            local_names.add(n.id)
+    if not suffix and pre:
+        suffix = "__arg"
     for n in walk_own(stmts):
         if isinstance(n, ast.Name) and isinstance(n.ctx, ast.Store) and n.id not in mapping:
             local_names.add(n.id)
@@ -304,7 +404,7 @@ def _subst_body(stmts, mapping, suffix=""):
             if node.id in local_names and suffix:
                 return ast.copy_location(ast.Name(id=node.id + suffix, ctx=node.ctx), node)
             return node
-    out = [Sub().visit(x) for x in stmts]
+    out = pre + [Sub().visit(x) for x in stmts]
     for x in out:
         ast.fix_missing_locations(x)
     return out
